@@ -63,10 +63,10 @@ def run_shard(ctx):
     ctx.run_plain(lambda: empty_inputs(ctx, L), "empty")
     suffix = st.binary(min_size=1, max_size=8)
     for name, strat, n in (
-        ("commands", gen.commands(L), 100 if q else 1500),
-        ("responses", gen.responses(L), 100 if q else 1500),
-        ("structures", gen.structures(L), 200 if q else 3000),
-        ("streams", gen.streams(L, max_pairs=2 if q else 3), 40 if q else 600),
+        ("commands", gen.commands(L, rare=False), 100 if q else 1500),
+        ("responses", gen.responses(L, rare=False), 100 if q else 1500),
+        ("structures", gen.structures(L, rare=False), 200 if q else 3000),
+        ("streams", gen.streams(L, max_pairs=2 if q else 3, rare=False), 40 if q else 600),
     ):
         ctx.run_given(st.tuples(strat, suffix), body, ctx.share(n), name=name)
 
